@@ -218,7 +218,9 @@ Proof.
   - destruct (negb (pv_confirmed p1) || negb (bs_eqb (Some fq) (r_name (pv_srv p1)))).
     + pose proof (confirm_ok G p1 (cp_prober c)) as Cf. destruct (confirm p1 (cp_prober c)) as [pb es]. cbn [fst snd cp_host] in *.
       split; [apply PInv_of; split; assumption|]. split; [exact Cf|reflexivity].
-    + assert (X : PProv G (fst (if bs_eqb (r_target (pv_srvP p1)) (r_target (pv_srv p1)) then (p1, []) else farewell p1)) /\
+    + destruct (match cp_prober c with Some pb => bytes_eqb (pb_base pb ++ pb_tail pb) fq | None => false end).
+      { cbn [fst snd cp_host]. split; [apply PInv_of; split; assumption|]. split; [apply all_ok_nil|reflexivity]. }
+      assert (X : PProv G (fst (if bs_eqb (r_target (pv_srvP p1)) (r_target (pv_srv p1)) then (p1, []) else farewell p1)) /\
                   all_ok G (snd (if bs_eqb (r_target (pv_srvP p1)) (r_target (pv_srv p1)) then (p1, []) else farewell p1))).
       { destruct (bs_eqb (r_target (pv_srvP p1)) (r_target (pv_srv p1))); [cbn; split; [exact P1|apply all_ok_nil]|apply farewell_ok, P1]. }
       destruct (if bs_eqb (r_target (pv_srvP p1)) (r_target (pv_srv p1)) then (p1, []) else farewell p1) as [p2 e2]. cbn [fst snd] in X.
